@@ -1447,15 +1447,15 @@ def model(case, quirks=frozenset()):
         if "abort" in st_ or "release" in st_:
             out["disturbed"] = True
             return out
+        if "raw" in st_ or "count" in st_ or "dest" in st_:
+            out["open"] = True
+            out["note"] = "undocumented-yield-shape"
+            return out
         if rem <= 0:
             out["classes"].add("more-than-announced")
             continue            # further results are ignored once the sub-operations are complete
         if "raise" in st_:
             final(fam["exc"], "handler-exception", counters=None, failed=list(failed), built_list=True, data="faillist")
-            return out
-        if "raw" in st_ or "count" in st_ or "dest" in st_:
-            out["open"] = True
-            out["note"] = "undocumented-yield-shape"
             return out
         st = resolve_status(st_["s"])
         sset, lab, extras, code = _status_expect(fam, st)
@@ -1498,10 +1498,11 @@ def model(case, quirks=frozenset()):
                     fail += 1
                     failed.append(inst_uid(d.get("k", 0)))
                 rem -= 1
-            elif t in ("inst-nouid", "inst-noclass", "inst-nometa"):
+            elif t in ("inst-nouid", "inst-noclass", "inst-nometa", "faillist", "valid", "unenc"):
+                # a Dataset that cannot be sent as a C-STORE sub-operation: that sub-operation failed
                 out["classes"].add("unsendable-instance")
                 fail += 1
-                if t != "inst-nouid":
+                if t in ("inst-noclass", "inst-nometa"):
                     failed.append(inst_uid(d.get("k", 0)))
                 rem -= 1
             else:               # not a Dataset at all
@@ -1515,9 +1516,11 @@ def model(case, quirks=frozenset()):
         if code == 0x0000:
             computed_final("explicit-success", explicit_success=True)
             return out
-        # failure / warning / cancel / unknown status supplied by the handler: final with that status
+        # failure / warning / cancel / unknown status supplied by the handler: final with that status; its own
+        # FailedSOPInstanceUIDList data set is promised to arrive only with a status documented for the service
+        documented = any(code in fam.get(c_, []) for c_ in ("failure", "warning", "cancel"))
         final(sset, lab, extras, counters=None, failed=list(failed), built_list=d["t"] != "faillist",
-              data=build_dataset(d)[1] if d["t"] == "faillist" else "faillist")
+              data=(build_dataset(d)[1] if documented else "any") if d["t"] == "faillist" else "faillist")
         return out
     if end_raise and rem > 0:
         final(fam["exc"], "handler-exception", counters=None, failed=list(failed), built_list=True, data="faillist")
